@@ -24,9 +24,10 @@ SPEC = Spec(
          "{0, 1..total+1, small byte limits 1..60}, cachedSize warm or cold; non-trivial = a resource identity appears in two "
          "output requests (cut inside a resource). batcher: the real defaultBatcher (bytes sizer) in a synctest bubble with requests "
          "made of 1-4 indivisible units packed FIFO by a MergeSplit that follows the real contract, min_size in {0,1,3,5,10}, "
-         "max_size = min_size + {0,0,1,2,5} or 0, 1-10 labels (consume / finish a random in-flight flush ok or failed / timer "
-         "flush) then Shutdown and completion of every flush in random order; non-trivial = a request was merged into a pending "
-         "batch. distinct = distinct op lines (sha1).",
+         "max_size = min_size + {0,0,1,2,5} or 0, 1-10 labels (consume, 1 in 8 without items / finish a random in-flight flush "
+         "with outcome ok, plain error or shutdown-classified error / timer flush) then Shutdown and completion of every flush in "
+         "random order; every 10th case drives disabledBatcher instead; the callback records whether the (combined) error carries "
+         "each classification; non-trivial = a request was merged into a pending batch. distinct = distinct op lines (sha1).",
     trusted_base=[
         "Lean 4.33.0 kernel; axioms per theorem listed under axioms_per_theorem (subset of propext, Classical.choice, Quot.sound)",
         "translator translators/cmd/c04shape (go/ast): alpha-normalised AST equality of logs_batch.go / traces_batch.go / "
